@@ -358,8 +358,15 @@ pub enum Window {
     /// [Tukey]: https://en.wikipedia.org/wiki/Window_function#Tukey_window
     Tukey {
         /// `alpha` parameter of Tukey window.
+        #[cfg_attr(feature = "serde", serde(default = "default_tukey_alpha"))]
         alpha: f32,
     },
+}
+
+/// Helper fn for serde.
+#[cfg(feature = "serde")]
+const fn default_tukey_alpha() -> f32 {
+    DEFAULT_TUKEY_ALPHA
 }
 
 impl Eq for Window {}
